@@ -159,6 +159,27 @@ Fixpoint begins_ahead (i : Z) (rest : list (list Z)) : bool :=
   | _ :: t => begins_ahead i t
   end.
 
+(* replies are logged when Manager.Allocate returns, i.e. a little after the worker took the address;
+   when an observation on interface i does not fit, the replies logged later in the same block for
+   requests waiting on i are applied first *)
+Fixpoint pull_replies (w : world) (i : Z) (rest : list (list Z)) : world :=
+  match rest with
+  | [] => w
+  | (99 :: _) :: _ => w
+  | (10 :: rid :: 1 :: _ :: a4 :: a6 :: _) :: t =>
+      let w1 := match find_req (w_slots w) 1 rid with
+                | Some (j, q) => if (j =? i) && negb (r_fin q) && negb (r_direct q) then try_app w i (LWorkerTake rid a4 a6 true) else w
+                | None => w end in
+      pull_replies w1 i t
+  | _ :: t => pull_replies w i t
+  end.
+Definition attempt_fits (w : world) (i pod : Z) (nc : bool) (pin : Z) (erdma : bool) (acc reason : Z) : bool :=
+  match slot_at w i with
+  | Some s => match alloc_kind s pod nc pin erdma with
+              | KReject k => (acc =? 0) && (k =? reason)
+              | _ => acc =? 1 end
+  | None => false end.
+
 Definition rec_step (c : cfg) (rest : list (list Z)) (w : world) (r : list Z) : world :=
   match r with
   | 1 :: rid :: pod :: pin :: pre :: _ =>
@@ -220,6 +241,7 @@ Definition rec_step (c : cfg) (rest : list (list Z)) (w : world) (r : list Z) : 
   | 13 :: i :: ok :: ips =>
       let '(r4, r6) := two_lists ips in app w i (LMetaSync (dec_bool ok) r4 r6) 13
   | 20 :: i :: rid :: pod :: nc :: pin :: erdma :: acc :: reason :: c4 :: c6 :: _ =>
+      let w := if attempt_fits w i pod (dec_bool nc) pin (dec_bool erdma) acc reason then w else pull_replies w i rest in
       match slot_at w i with
       | None => fail w 20
       | Some s =>
@@ -331,5 +353,3 @@ Definition run_pool (i : list Z) : list Z :=
       if w_ok w then w_out w else [-997; w_why w]
   | None => bad
   end.
-
-Definition chk_pool_tmp (i o : list Z) : bool := true.
